@@ -23,7 +23,9 @@
  *            Xn the n-th allocation made by a WORKER thread from now on fails;  Wn  set nbWorkers n (between frames)
  *            Pp:v  ZSTD_CCtx_setParameter(p, v) (numeric ZSTD_cParameter; between frames, or mid-frame for the parameters zstd lets change);
  *            Dn  dictionary for the next frame(s): 0 none, 1 refPrefix (one frame), 2 loadDictionary, 3 refCDict, 4 loadDictionary of other bytes;
- *            Z  ZSTD_sizeof_CCtx (takes the job and pool mutexes; bracketed like a progress query)
+ *            Z  ZSTD_sizeof_CCtx (takes the job and pool mutexes; bracketed like a progress query);
+ *            Tn  ZSTD_CCtx_refThreadPool: n > 0 a pool of n threads shared by the harness (created once), 0 = back to a private pool
+ *                (the multithreaded context is rebuilt: such runs are oracles only);  sI:O  one call of the older ZSTD_compressStream()
  */
 #define _GNU_SOURCE
 #ifndef C11_REAL_PTHREADS
@@ -33,6 +35,7 @@
 #include "common/pool.c"
 #include "compress/zstdmt_compress.c"
 #include "zstd.h"
+#include "zstd_errors.h"
 
 #include <stdio.h>
 #include <stdlib.h>
@@ -431,6 +434,7 @@ static void probe_progress(void) {
     if (tf > fp.produced - fp.flushed) { snprintf(b, sizeof b, "ZSTD_toFlushNow %zu exceeds produced - flushed = %llu", tf, fp.produced - fp.flushed); oracle(b); }
 }
 
+static ZSTD_threadPool* g_pool; static int g_legacy_call; static int g_fault_ops;
 static size_t one_call(ZSTD_EndDirective e, size_t in_more, size_t out_more) {
     ZSTD_inBuffer ib; ZSTD_outBuffer ob; size_t r; int init_now;
     if (in_more > g_incap - g_inpos) in_more = g_incap - g_inpos;
@@ -444,10 +448,10 @@ static size_t one_call(ZSTD_EndDirective e, size_t in_more, size_t out_more) {
     ob.dst = g_out; ob.pos = g_outpos; ob.size = g_outpos + out_more;
     init_now = (g_cctx->streamStage == zcss_init);
     if (init_now) { g_cur_dictmode = g_cctx->prefixDict.dict ? 1 : (g_sticky_dict ? 2 : 0); g_cur_dict_off = g_cctx->prefixDict.dict ? 0 : g_sticky_off; }
-    if (init_now) { if (g_frame_open) { g_outpos = g_fout_off; ob.pos = g_outpos; ob.size = g_outpos + out_more; } g_fin_off = g_inpos; g_fout_off = g_outpos; g_frame_open = 1; printf("OP init\n"); }
+    if (init_now) { if (g_frame_open) { g_outpos = g_fout_off; ob.pos = g_outpos; ob.size = g_outpos + out_more; } g_fin_off = g_inpos - g_cctx->stableIn_notConsumed /* stable input accepted by earlier calls belongs to this frame */; g_fout_off = g_outpos; g_frame_open = 1; printf("OP init\n"); }
     printf("OP cs %d %zu %zu\n", (int)e, in_more, out_more);
     g_prev_opos = ob.pos; g_cur_ob = &ob;
-    r = ZSTD_compressStream2(g_cctx, &ob, &ib, e);
+    r = g_legacy_call ? ZSTD_compressStream(g_cctx, &ob, &ib) : ZSTD_compressStream2(g_cctx, &ob, &ib, e);
 #ifndef C11_REAL_PTHREADS
     flush_oracle(0);      /* a copy made after the last synchronisation operation of the call */
 #endif
@@ -455,6 +459,13 @@ static size_t one_call(ZSTD_EndDirective e, size_t in_more, size_t out_more) {
     if (init_now) { if (g_cctx->appliedParams.nbWorkers > 0) print_initp(); else printf("INITST\n"); }
     g_inpos = ib.pos; g_outpos = ob.pos;
     if (ZSTD_isError(r)) printf("RET E %s\n", ZSTD_getErrorName(r)); else printf("RET %zu\n", r);
+    /* without an injected allocation failure a call fails only for a reason the program itself gives (a call after the frame has
+     * ended, a stable buffer that moved): anything else is a compression job that failed on its own */
+    if (ZSTD_isError(r) && !g_fault_ops) {
+        ZSTD_ErrorCode const ec = ZSTD_getErrorCode(r);
+        if (ec != ZSTD_error_stage_wrong && ec != ZSTD_error_srcSize_wrong && ec != ZSTD_error_stabilityCondition_notRespected) {
+            char b[200]; snprintf(b, sizeof b, "ZSTD_compressStream2 failed although no allocation failure was injected: %s", ZSTD_getErrorName(r)); oracle(b); }
+    }
     if (C.probe && !ZSTD_isError(r) && g_frame_open && !(e == ZSTD_e_end && r == 0) && g_cctx->appliedParams.nbWorkers > 0 && g_cctx->streamStage != zcss_init) probe_progress();
     if (ZSTD_isError(r)) { g_frame_open = 0; g_outpos = g_fout_off; }
     else if (e == ZSTD_e_end && r == 0) {
@@ -470,6 +481,14 @@ static void run_prog(void) {
         op_t* o = &C.ops[i]; size_t r; int guard;
         switch (o->kind) {
         case 'c': one_call(ZSTD_e_continue, (size_t)o->a, (size_t)o->b); break;
+        case 's': g_legacy_call = 1; one_call(ZSTD_e_continue, (size_t)o->a, (size_t)o->b); g_legacy_call = 0; break;
+        case 'T': { size_t e; printf("OP pool %ld\n", o->a);
+                    if (o->a > 0 && !g_pool) g_pool = ZSTD_createThreadPool((size_t)o->a);
+                    e = ZSTD_CCtx_refThreadPool(g_cctx, o->a > 0 ? g_pool : NULL);
+                    if (ZSTD_isError(e) && g_cctx->streamStage == zcss_init) oracle("ZSTD_CCtx_refThreadPool refused between frames");
+                    /* a pool that no context references any more may be freed (the documented life cycle) */
+                    if (o->a == 0 && !ZSTD_isError(e) && g_pool) { ZSTD_freeThreadPool(g_pool); g_pool = NULL; }
+                    break; }
         case 'f': one_call(ZSTD_e_flush, (size_t)o->a, (size_t)o->b); break;
         case 'e': one_call(ZSTD_e_end, (size_t)o->a, (size_t)o->b); break;
         case 'C': { size_t const goal = g_inpos + (size_t)o->a > g_incap ? g_incap : g_inpos + (size_t)o->a; guard = 0;
@@ -480,7 +499,7 @@ static void run_prog(void) {
         case 'F': guard = 0; do { r = one_call(ZSTD_e_flush, 0, (size_t)o->a); } while (!ZSTD_isError(r) && r != 0 && ++guard < 100000); break;
         case 'R': printf("OP reset\n"); ZSTD_CCtx_reset(g_cctx, ZSTD_reset_session_only); if (g_frame_open) { g_frame_open = 0; g_outpos = g_fout_off; } break;
         case 'L': printf("OP level %ld\n", o->a); { size_t const e = ZSTD_CCtx_setParameter(g_cctx, ZSTD_c_compressionLevel, (int)o->a); if (ZSTD_isError(e)) oracle("setParameter(compressionLevel) refused mid-frame"); } break;
-        case 'X': printf("OP fault %ld\n", o->a); __atomic_store_n(&g_wallocs, 0, __ATOMIC_SEQ_CST); __atomic_store_n(&g_fail_at, o->a, __ATOMIC_SEQ_CST); break;
+        case 'X': g_fault_ops++; printf("OP fault %ld\n", o->a); __atomic_store_n(&g_wallocs, 0, __ATOMIC_SEQ_CST); __atomic_store_n(&g_fail_at, o->a, __ATOMIC_SEQ_CST); break;
         case 'W': printf("OP workers %ld\n", o->a); ZSTD_CCtx_setParameter(g_cctx, ZSTD_c_nbWorkers, (int)o->a); break;
         case 'P': { size_t const e = ZSTD_CCtx_setParameter(g_cctx, (ZSTD_cParameter)o->a, (int)o->b);
                     printf("OP param %ld %ld %s\n", o->a, o->b, ZSTD_isError(e) ? ZSTD_getErrorName(e) : "ok");
@@ -567,6 +586,7 @@ static void run_case(void) {
     run_prog();
     printf("MARK end\n");
     ZSTD_freeCCtx(g_cctx); g_cctx = NULL;
+    if (g_pool) { ZSTD_freeThreadPool(g_pool); g_pool = NULL; }
 #ifndef C11_REAL_PTHREADS
     zv_sched_end();
 #endif
